@@ -164,6 +164,11 @@ def main():
     i_pm = find(lambda i, x: x["e"] == "mark" and x["name"] == "phase", i_hrun + 1)
     i_pm2 = find(lambda i, x: x["e"] == "mark" and x["name"] == "phase", i_pm + 1)
     cases.append(("a phase of a thread-count history is missing its calls", lambda: [dict(x) for k, x in enumerate(recs) if not (i_pm < k < i_pm2)], None))
+    # beyond-property rules: guard inside a parallel region, messages
+    i_g = find(lambda i, x: x["e"] == "Guard" and x["team"] > 1)
+    cases.append(("a guarded call is accepted inside a parallel region", edit(i_g, lambda x: (x.__setitem__("accepted", 1), x.__setitem__("refused", x["refused"] - 1))), "guard-inside-parallel-region"))
+    i_m = find(lambda i, x: x["e"] == "Out" and x["name"] == "messages" and nonref(i))
+    cases.append(("a message does not arrive whole", edit(i_m, lambda x: x.__setitem__("v", [0] + list(x["v"][1:]))), "result-differs-from-single-thread-run"))
     # scatter cache
     try:
         i_sc = find(lambda i, x: x["e"] == "sc.get" and x["st"] == 1 and nonref(i))
